@@ -146,8 +146,8 @@ def check_C02(tier):
     ok, msg = prebuild()
     if not ok:
         return build_failure(pid, tier, msg)
-    proof = common.prove(["Y.sim", "Y.LA_in_table", "Y.firstOf_sets", "Y.Props.C01_sound"],
-                         ["Yv.Abs.Complete", "Yv.Abs.CertSets", "Yv.Props.C01"])
+    proof = common.prove(["Y.Props.C02_complete", "Y.Props.C02_complete_sound", "Y.Props.C01_sound", "Y.Props.C03_oracle_exact"],
+                         ["Yv.Props.C02", "Yv.Props.C01", "Yv.Props.C03"])
     results = sweep.run(tier, rng)
     ties = cert_ties(results, ["gramWF", "certA", "certT"])
     violations, samples = [], []
@@ -159,8 +159,9 @@ def check_C02(tier):
         if not is_lalr:
             continue
         lalr += 1
-        if r.V.get("certC", ["missing"])[0] != "ok":
-            ties.append({"what": "completeness certificate certC fails on an LALR(1) grammar", "case": r.id, "src": r.case["src"]})
+        for nm in ("certC", "setsClosed", "laClosed", "laTerm", "prodOK"):
+            if r.V.get(nm, ["missing"])[0] != "ok":
+                ties.append({"what": "hypothesis %s of C02_complete fails on an LALR(1) grammar" % nm, "case": r.id, "src": r.case["src"]})
         if r.warns():
             violations.append(viol(pid, r, "conflict warning for a grammar whose LALR(1) automaton has no conflict", {"warnings": r.warns()}))
         for f in r.runs:
@@ -178,7 +179,7 @@ def check_C02(tier):
                                        {"input_symbol_ids": w}))
     cov = std_cov(results, runs, GEN_RULE + "; inputs: all strings up to a bound + sampled sentences, membership decided by an Earley recogniser", samples,
                   {"lalr1_grammars": lalr, "sentences_checked": sentences,
-                   "partial": ["C02_complete is proved in abstract form (Y.sim over a lookahead-annotated item system with five closure facts; Y.LA_in_table / Y.firstOf_sets supply them from Bool checks); the glue from certC to those facts is validated per grammar, not yet a single theorem"]})
+                   "hypotheses_evaluated": "gramWF certA certT setsClosed laClosed certC laTerm on the implementation's automaton/table with the verified oracle's lookahead table"})
     return common.conclude(pid, tier, "proof", proof, ties, violations, cov, ["LALR(1) is decided by the verified lookahead oracle on the implementation's automaton"])
 
 
@@ -190,10 +191,13 @@ def check_C03(tier):
     ok, msg = prebuild()
     if not ok:
         return build_failure(pid, tier, msg)
-    proof = common.prove(["Y.LA_iff", "Y.LA_in_table", "Y.firstOf_sets"], ["Yv.Abs.Lalr", "Yv.Abs.CertSets"])
+    proof = common.prove(["Y.Props.C03_oracle_exact", "Y.Props.C03_oracle_lr1", "Y.Props.C03_laLines", "Y.LA_iff"], ["Yv.Props.C03", "Yv.Abs.Lalr"])
     results = sweep.run(tier, rng, inputs=False, n_random=600 if tier == "quick" else 15000,
                         n_tiny=600 if tier == "quick" else None)
-    ties = cert_ties(results, ["gramWF", "certA"])
+    ties = cert_ties(results, ["gramWF", "certA", "prodOK"])
+    for r in results:
+        if r.refused is None and r.V.get("laOracle", ["?"])[0] == "UNSTABLE":
+            ties.append({"what": "the verified oracle laL returned none (fails closed)", "case": r.id, "src": r.case["src"]})
     violations, samples = [], []
     sets = 0
     for r in results:
@@ -201,6 +205,8 @@ def check_C03(tier):
             continue
         sets += len(r.las())
         v = r.V.get("laOracle")
+        if v is not None and v[0] == "UNSTABLE":
+            continue
         if v is None or v[0] != "ok":
             violations.append(viol(pid, r, "lookahead set differs from the LALR(1) set",
                                    {"state_rule_symbols": v[1:] if v else None,
@@ -215,7 +221,7 @@ def check_C03(tier):
         if len(samples) < 3 and len(r.las()) > 3:
             samples.append({"case": r.id, "lookaheads": r.las()[:4], "warnings": iw[:3]})
     cov = std_cov(results, sets, GEN_RULE + "; evaluations = (state, rule) lookahead sets compared", samples,
-                  {"partial": ["yaccgo's DeRemer-Pennello computation is validated per grammar against the verified fixpoint oracle, not verified for all grammars"]})
+                  {"partial": ["yaccgo's DeRemer-Pennello computation is validated per grammar against the VERIFIED oracle laL (C03_oracle_exact), not itself verified for all grammars"]})
     return common.conclude(pid, tier, "proof", proof, ties, violations, cov, [])
 
 
@@ -626,7 +632,9 @@ def check_C05(tier):
         ia = [l for l in b if l.split()[0] in ("PACT", "POFF", "PCHK")]
         ma = [l[2:] for l in model.get("m%d" % i, []) if l.startswith("M ")]
         if ia != ma and not pan:
-            ties.append({"what": "mirror stage differs: PackTable arrays", "matrix": m, "impl": ia, "model": ma})
+            ties.append({"what": "the verified packing model packA differs from PackTable's arrays", "matrix": m, "impl": ia, "model": ma})
+        if any(l.startswith("X packA=PackX FAIL") for l in model.get("m%d" % i, [])):
+            ties.append({"what": "the array-based mirror PackX differs from the verified model packA", "matrix": m})
     samples.append({"matrix": mats[0], "impl": impl.get("m0")})
     # (2) every cell of every generated grammar through the implementation's packed arrays
     results = sweep.run(tier, rng, inputs=False, n_random=500 if tier == "quick" else 10000, big=30 if tier == "quick" else 300)
@@ -641,16 +649,37 @@ def check_C05(tier):
         if v is None or v[0] != "ok":
             violations.append(viol(pid, r, "packed lookup differs from the dense table",
                                    {"state_symbol": v[1:] if v else None}))
-    cov = std_cov(results, len(mats) + cells,
+    # (3) the compiled generated parsers: packed vs -u, global and -o forms, on every input
+    res = x_sweep(tier, rng, n=20 if tier == "quick" else 150, variants=[v for v in xrun.VARIANTS if v[0] == "go"])
+    ties += x_build_ties(res)
+    govars = [v for v in xrun.VARIANTS if v[0] == "go"]
+    t2, xruns = x_model_ties(res, variants=govars)
+    ties += t2
+    ties += driver_cert_ties(res, variants=govars)
+    pairs = 0
+    for c in res["usable"]:
+        for w in c["inputs"]:
+            for a, b in (("go-packed", "go-u"), ("go-o", "go-o-u")):
+                ra, rb = xrun.impl_run(res, c, a, w), xrun.impl_run(res, c, b, w)
+                if ra is None or rb is None:
+                    continue
+                pairs += 1
+                same = (xrun.norm_verdict(ra["verdict"]) == xrun.norm_verdict(rb["verdict"]) and
+                        (ra["verdict"] == "loop" or (ra["log"] == rb["log"] and ra["val"] == rb["val"] and ra["req"] == rb["req"])))
+                if not same:
+                    violations.append(xviol(pid, res, c, a, "the packed parser and the -u parser differ on an input",
+                                            {"input": w, a: {k: ra[k] for k in ("verdict", "log", "val", "req")},
+                                             b: {k: rb[k] for k in ("verdict", "log", "val", "req")}}))
+    cov = std_cov(results, len(mats) + cells + pairs,
                   "random integer matrices (1x1..12x12, densities 0-100%, negatives, equal rows, empty first column) + the F5 matrix through PackTable/UnPackTable; " + GEN_RULE +
                   "; every (state, symbol) cell of every packed grammar looked up through the implementation's five arrays with the generated Action logic",
-                  samples, {"matrices": len(mats), "cells": cells,
-                            "partial": ["behavioural equality of the packed and -u generated parsers on all inputs is covered by the C08 check (execution)"]})
+                  samples, {"matrices": len(mats), "cells": cells, "packed_vs_unpacked_runs": pairs,
+                            "partial": ["the generated Action method itself is tied to the lookup model by execution of the compiled parsers, not by a translated definition"]})
     return common.conclude(pid, tier, "proof", proof, ties, violations, cov, [])
 
 
-C05_THEOREMS = ["PackP.lookup_correct", "PackP.inv_place", "PackP.firstFit_fits"]
-C05_MODULES = ["Yv.Proofs.PackCore"]
+C05_THEOREMS = ["PackA.C05_pack_roundtrip", "PackA.C05_unpack_pack", "PackA.place_inv", "PackP.lookup_correct"]
+C05_MODULES = ["Yv.Props.C05"]
 
 
 def parse_blocks(txt, begin, end):
@@ -1194,7 +1223,11 @@ def c16_render(sp, target, pkg, rng_actions):
                 a += " /* note: $$ */ "
             if rng_actions.random() < 0.2:
                 a += " // tail\n"
+        if a == "" and rng_actions.random() < 0.5:
+            a = None                      # no action block at all
         acts.append(a)
+    if rng_actions.random() < 0.15:
+        acts = [None] * len(acts)         # a pure recogniser: no rule has an action
     if target == "go":
         union = " val int\n str string\n n_2 float64"
         pro = "package %s\nimport \"fmt\"" % pkg
